@@ -525,6 +525,8 @@ func runC03(c *Ctx) {
 
 	// ---- R4 ----
 	c03StateTables(c, "C03-R4")
+	c09StateDefault(c, "C03-R4")
+	c03PathFilter(c, "C03-R5")
 
 	// ---- R5 ----
 	if find := c.MustFunc("C03-R5", "internal/discovery.GitBranchFinder.Find"); find != nil {
@@ -996,4 +998,58 @@ func c03Pairing(c *Ctx, rule string) {
 			}), rule, "findRulesByName:match requires PathError == nil", a.Inner.Pos(), "guarded", "entries with path errors can be paired by name")
 		}
 	}
+}
+
+// c03PathFilter: in git.Changes the include/exclude filter is asked about the
+// very path the change is recorded under (FileChange.Path.After.Name). Asking
+// about the rename source drops files moved into an included directory (their
+// rules stay noop) and keeps files moved out of it.
+func c03PathFilter(c *Ctx, rule string) {
+	fi := c.MustFunc(rule, "internal/git.Changes")
+	if fi == nil {
+		return
+	}
+	info := fi.Pkg.TypesInfo
+	// the value stored as Path.After.Name in FileChange literals
+	var after []types.Object
+	for _, cl := range compositeLits(info, fi.Decl.Body, "internal/git.FileChange") {
+		if pd, ok := ast.Unparen(litFieldOr(cl, "Path")).(*ast.CompositeLit); ok {
+			if ap, ok := ast.Unparen(litFieldOr(pd, "After")).(*ast.CompositeLit); ok {
+				if nm := litField(ap, "Name"); nm != nil {
+					if o := objOf(info, nm); o != nil {
+						after = append(after, o)
+					}
+				}
+			}
+		}
+	}
+	if len(after) == 0 {
+		c.Undecided(rule, "Changes:path recorded as After.Name", fi.Decl.Pos(), "no FileChange{Path: PathDiff{After: Path{Name: x}}} literal found")
+		return
+	}
+	n := 0
+	ast.Inspect(fi.Decl.Body, func(nd ast.Node) bool {
+		call, ok := nd.(*ast.CallExpr)
+		if !ok || !isCallTo(info, call, "internal/git.PathFilter.IsPathAllowed") || len(call.Args) != 1 {
+			return true
+		}
+		n++
+		ok2 := false
+		for _, o := range after {
+			if isObj(info, call.Args[0], o) {
+				ok2 = true
+			}
+		}
+		c.Check(ok2, rule, "Changes:include/exclude filter asked about the path the change is recorded under", call.Pos(), "After.Name",
+			"the path filter is evaluated on `"+roleStr(info, call.Args[0])+"`, not on the path stored as Path.After.Name: a file renamed across the include/exclude boundary is classified by where it came from, so rules moved into scope stay `noop` and are never checked")
+		return true
+	})
+	c.Check(n >= 1, rule, "Changes:path filter consulted", fi.Decl.Pos(), itoa(n)+" call(s)", "git.Changes no longer applies the include/exclude filter")
+}
+
+func litFieldOr(cl *ast.CompositeLit, name string) ast.Expr {
+	if v := litField(cl, name); v != nil {
+		return v
+	}
+	return &ast.BadExpr{}
 }
